@@ -108,6 +108,8 @@ type world struct {
 	g        *gen.Graph
 	lp       cidlink.LinkPrototype
 	blockLnk []datamodel.Link
+	enc1     []byte // dag-cbor encoding of n1 (shared, read-only)
+	encP     []byte // dag-json encoding of the bound struct's representation
 	profile  int
 	backend  string
 	cleanup  func()
@@ -194,8 +196,18 @@ func buildWorld(t *sim.Tape) *world {
 		return nb.Build()
 	}
 	w.n1, w.n2 = mk(), mk()
+	var eb bytes.Buffer
+	if err := dagcbor.Encode(w.n1, &eb); err != nil {
+		panic(err)
+	}
+	w.enc1 = eb.Bytes()
 	w.bn = bindnode.Wrap(newPerson(2), ts.TypeByName("Person"))
 	w.protoP = bindnode.Prototype((*Person)(nil), ts.TypeByName("Person"))
+	var pb bytes.Buffer
+	if err := dagjson.Encode(w.bn.Representation(), &pb); err != nil {
+		panic(err)
+	}
+	w.encP = pb.Bytes()
 	// generated-code node
 	gb := gendemo.Type.Map__String__Msg3.NewBuilder()
 	ma, _ := gb.BeginMap(2)
@@ -240,11 +252,11 @@ func avHash(n datamodel.Node) string {
 	return fmt.Sprintf("%x", v.Hash())
 }
 
-const nOps = 26
+const nOps = 30
 
 var opNames = []string{"read-basicnode", "read-bindnode-type", "read-bindnode-repr", "deepequal", "copy", "encode-dagcbor", "encode-dagjson", "encode-bindnode-repr",
 	"computelink", "load", "loadraw", "walkadv", "walkmatching", "get-path", "build-from-shared-prototype", "wrap-with-shared-type", "wrap-inferred", "registry-lookup",
-	"print", "read-gendemo", "build-gendemo", "compile-selector", "typesystem-read", "prototype-inferred", "encode-to-failing-writer", "encode-after-failed-encode"}
+	"print", "read-gendemo", "build-gendemo", "compile-selector", "typesystem-read", "prototype-inferred", "encode-to-failing-writer", "encode-after-failed-encode", "decode-dagcbor", "decode-dagjson-into-shared-prototype", "focused-transform-of-shared-node", "walk-transform-of-shared-node"}
 
 // doOp performs one read-only operation on the shared world and returns a digest of its result.
 func (w *world) doOp(op, arg int) string {
@@ -384,6 +396,40 @@ func (w *world) doOp(op, arg int) string {
 			}
 		}
 		return sb.String()
+	case 26:
+		// decode shared bytes into a fresh generic builder
+		nb := basicnode.Prototype.Any.NewBuilder()
+		if err := dagcbor.Decode(nb, bytes.NewReader(w.enc1)); err != nil {
+			return "ERR:" + err.Error()
+		}
+		return avHash(nb.Build())
+	case 27:
+		// decode shared bytes through the shared reflection-bound prototype (representation level)
+		nb := w.protoP.Representation().NewBuilder()
+		if err := dagjson.Decode(nb, bytes.NewReader(w.encP)); err != nil {
+			return "ERR:" + err.Error()
+		}
+		return avHash(nb.Build())
+	case 28:
+		// a focused transform reads the shared node and builds a new one
+		res, err := traversal.Progress{Cfg: w.cfg}.FocusedTransform(w.bn, datamodel.ParsePath("Pos/X"), func(_ traversal.Progress, prev datamodel.Node) (datamodel.Node, error) {
+			return basicnode.NewInt(int64(arg)), nil
+		}, false)
+		if err != nil {
+			return "ERR:" + err.Error()
+		}
+		return avHash(res) + avHash(w.bn)
+	case 29:
+		res, err := traversal.Progress{Cfg: w.cfg}.WalkTransforming(w.n2, w.sel, func(_ traversal.Progress, n datamodel.Node) (datamodel.Node, error) {
+			if n.Kind() == datamodel.Kind_Int {
+				return basicnode.NewInt(int64(arg)), nil
+			}
+			return n, nil
+		})
+		if err != nil {
+			return "ERR:" + err.Error()
+		}
+		return avHash(res) + avHash(w.n2)
 	case 24, 25:
 		// encode a shared map-bearing node into a writer that fails at its arg-th write, then (25) encode again properly
 		fw := &failingWriter{at: arg}
